@@ -19,10 +19,19 @@
 (*   ShutdownDone        ... and returns once no stream is attached        *)
 (*   OperatorLine        the terminal's ReadLine returns: the program can  *)
 (*                       now notice that it should exit                    *)
+(*   Hold                a client connects while the socket still listens  *)
+(*                       and sends nothing yet: a connection in flight     *)
+(*                       when the listener closes                          *)
+(*   LateIO              ... and sends its /io request afterwards: it is   *)
+(*                       served like any other (closing the listener does  *)
+(*                       not touch accepted connections), so a further     *)
+(*                       shell may attach once the first has gone          *)
+(*   HeldCloses          the held connection is closed (by the client, or  *)
+(*                       by the graceful shutdown once it is 5 s old)      *)
 (***************************************************************************)
 EXTENDS Naturals, Sequences, FiniteSets, TLC, Json
 
-CONSTANTS OneShellFlag, MaxPre, Emit
+CONSTANTS OneShellFlag, MaxPre, MaxHeld, Emit
 
 VARIABLES
   listener,   \* open | closed
@@ -36,12 +45,15 @@ VARIABLES
   status,     \* exit status once exited
   npre,       \* refused / half attempts so far
   ntraffic,
+  held,       \* connections accepted before the listener closed that have not sent a request
+  nheld,      \* ... so far (bounds the model)
   act
-vars == <<listener, inAtt, outAtt, viaIO, everFull, evq, gone, reprints, proc, status, npre, ntraffic, act>>
+vars == <<listener, inAtt, outAtt, viaIO, everFull, evq, gone, reprints, proc, status, npre, ntraffic, held, nheld, act>>
 
 Init ==
   /\ listener = "open" /\ inAtt = FALSE /\ outAtt = FALSE /\ viaIO = FALSE /\ everFull = FALSE
   /\ evq = <<>> /\ gone = FALSE /\ reprints = 0 /\ proc = "serving" /\ status = 0 /\ npre = 0 /\ ntraffic = 0
+  /\ held = 0 /\ nheld = 0
   /\ act = [n |-> "Init"]
 
 Full == inAtt /\ outAtt
@@ -55,80 +67,100 @@ Attach(d) ==
      /\ evq' = IF full THEN Append(evq, "connected") ELSE evq
      /\ everFull' = (everFull \/ full)
   /\ act' = [n |-> "Attach", d |-> d]
-  /\ UNCHANGED <<listener, viaIO, gone, reprints, proc, status, npre, ntraffic>>
+  /\ UNCHANGED <<listener, viaIO, gone, reprints, proc, status, npre, ntraffic, held, nheld>>
 
 AttachIO ==
   /\ CanAccept /\ ~inAtt /\ ~outAtt
   /\ inAtt' = TRUE /\ outAtt' = TRUE /\ viaIO' = TRUE /\ everFull' = TRUE
   /\ evq' = Append(evq, "connected")
   /\ act' = [n |-> "AttachIO"]
-  /\ UNCHANGED <<listener, gone, reprints, proc, status, npre, ntraffic>>
+  /\ UNCHANGED <<listener, gone, reprints, proc, status, npre, ntraffic, held, nheld>>
 
 (* an attempt the broker refuses (duplicate direction, wrong ID) *)
 Refused ==
   /\ CanAccept /\ (inAtt \/ outAtt) /\ npre < MaxPre
   /\ npre' = npre + 1
   /\ act' = [n |-> "Refused", d |-> IF inAtt THEN "in" ELSE "out"]
-  /\ UNCHANGED <<listener, inAtt, outAtt, viaIO, everFull, evq, gone, reprints, proc, status, ntraffic>>
+  /\ UNCHANGED <<listener, inAtt, outAtt, viaIO, everFull, evq, gone, reprints, proc, status, ntraffic, held, nheld>>
 
 (* a half-attached stream goes away again *)
 DropHalf ==
   /\ proc = "serving" /\ ~Full /\ (inAtt \/ outAtt) /\ npre < MaxPre /\ ~everFull
   /\ inAtt' = FALSE /\ outAtt' = FALSE /\ npre' = npre + 1
   /\ act' = [n |-> "DropHalf"]
-  /\ UNCHANGED <<listener, viaIO, everFull, evq, gone, reprints, proc, status, ntraffic>>
+  /\ UNCHANGED <<listener, viaIO, everFull, evq, gone, reprints, proc, status, ntraffic, held, nheld>>
 
 WatchConnected ==
   /\ evq # <<>> /\ Head(evq) = "connected" /\ evq' = Tail(evq)
   /\ listener' = IF OneShellFlag THEN "closed" ELSE listener
   /\ act' = [n |-> "tau"]
-  /\ UNCHANGED <<inAtt, outAtt, viaIO, everFull, gone, reprints, proc, status, npre, ntraffic>>
+  /\ UNCHANGED <<inAtt, outAtt, viaIO, everFull, gone, reprints, proc, status, npre, ntraffic, held, nheld>>
 
 WatchDisconnected ==
   /\ evq # <<>> /\ Head(evq) = "disconnected" /\ evq' = Tail(evq)
   /\ reprints' = IF OneShellFlag THEN reprints ELSE reprints + 1
   /\ act' = [n |-> "tau"]
-  /\ UNCHANGED <<listener, inAtt, outAtt, viaIO, everFull, gone, proc, status, npre, ntraffic>>
+  /\ UNCHANGED <<listener, inAtt, outAtt, viaIO, everFull, gone, proc, status, npre, ntraffic, held, nheld>>
 
 Probe ==
   /\ proc # "exited"
   /\ act' = [n |-> "Probe", ok |-> (listener = "open")]
-  /\ UNCHANGED <<listener, inAtt, outAtt, viaIO, everFull, evq, gone, reprints, proc, status, npre, ntraffic>>
+  /\ UNCHANGED <<listener, inAtt, outAtt, viaIO, everFull, evq, gone, reprints, proc, status, npre, ntraffic, held, nheld>>
 
 Traffic ==
   /\ Full /\ ntraffic < 2
   /\ ntraffic' = ntraffic + 1
   /\ act' = [n |-> "Traffic"]
-  /\ UNCHANGED <<listener, inAtt, outAtt, viaIO, everFull, evq, gone, reprints, proc, status, npre>>
+  /\ UNCHANGED <<listener, inAtt, outAtt, viaIO, everFull, evq, gone, reprints, proc, status, npre, held, nheld>>
 
 EndShell(how) ==
-  /\ Full /\ ~gone
+  /\ Full /\ (viaIO \/ ~gone)
   /\ inAtt' = FALSE /\ outAtt' = FALSE /\ gone' = TRUE
   /\ evq' = Append(evq, "disconnected")
   /\ act' = [n |-> "EndShell", how |-> how]
-  /\ UNCHANGED <<listener, viaIO, everFull, reprints, proc, status, npre, ntraffic>>
+  /\ UNCHANGED <<listener, viaIO, everFull, reprints, proc, status, npre, ntraffic, held, nheld>>
 
 ServeReturns ==
   /\ proc = "serving" /\ listener = "closed"
   /\ proc' = "draining" /\ act' = [n |-> "tau"]
-  /\ UNCHANGED <<listener, inAtt, outAtt, viaIO, everFull, evq, gone, reprints, status, npre, ntraffic>>
+  /\ UNCHANGED <<listener, inAtt, outAtt, viaIO, everFull, evq, gone, reprints, status, npre, ntraffic, held, nheld>>
 
 ShutdownDone ==
-  /\ proc = "draining" /\ ~inAtt /\ ~outAtt
+  /\ proc = "draining" /\ ~inAtt /\ ~outAtt /\ held = 0
   /\ proc' = "stopping" /\ act' = [n |-> "tau"]
-  /\ UNCHANGED <<listener, inAtt, outAtt, viaIO, everFull, evq, gone, reprints, status, npre, ntraffic>>
+  /\ UNCHANGED <<listener, inAtt, outAtt, viaIO, everFull, evq, gone, reprints, status, npre, ntraffic, held, nheld>>
 
 OperatorLine ==
   /\ proc # "exited"
   /\ IF proc = "stopping" THEN proc' = "exited" /\ status' = 0 ELSE UNCHANGED <<proc, status>>
   /\ act' = [n |-> "OperatorLine", exits |-> (proc = "stopping")]
-  /\ UNCHANGED <<listener, inAtt, outAtt, viaIO, everFull, evq, gone, reprints, npre, ntraffic>>
+  /\ UNCHANGED <<listener, inAtt, outAtt, viaIO, everFull, evq, gone, reprints, npre, ntraffic, held, nheld>>
 
-Next == (\E d \in {"in", "out"} : Attach(d)) \/ AttachIO \/ Refused \/ DropHalf \/ WatchConnected \/ WatchDisconnected
+Hold ==
+  /\ CanAccept /\ nheld < MaxHeld
+  /\ held' = held + 1 /\ nheld' = nheld + 1
+  /\ act' = [n |-> "Hold"]
+  /\ UNCHANGED <<listener, inAtt, outAtt, viaIO, everFull, evq, gone, reprints, proc, status, npre, ntraffic>>
+
+LateIO ==
+  /\ held > 0 /\ listener = "closed" /\ proc \in {"serving", "draining"} /\ ~inAtt /\ ~outAtt
+  /\ held' = held - 1
+  /\ inAtt' = TRUE /\ outAtt' = TRUE /\ viaIO' = TRUE /\ ntraffic' = 0
+  /\ evq' = Append(evq, "connected")
+  /\ act' = [n |-> "LateIO"]
+  /\ UNCHANGED <<listener, everFull, gone, reprints, proc, status, npre, nheld>>
+
+HeldCloses ==
+  /\ held > 0
+  /\ held' = held - 1
+  /\ act' = [n |-> "HeldCloses"]
+  /\ UNCHANGED <<listener, inAtt, outAtt, viaIO, everFull, evq, gone, reprints, proc, status, npre, ntraffic, nheld>>
+
+Next == Hold \/ LateIO \/ HeldCloses \/ (\E d \in {"in", "out"} : Attach(d)) \/ AttachIO \/ Refused \/ DropHalf \/ WatchConnected \/ WatchDisconnected
         \/ Probe \/ Traffic \/ (\E h \in {"in-closes", "out-closes"} : EndShell(h)) \/ ServeReturns \/ ShutdownDone \/ OperatorLine
 Spec == Init /\ [][Next]_vars
 Fair == WF_vars(WatchConnected) /\ WF_vars(WatchDisconnected) /\ WF_vars(ServeReturns) /\ WF_vars(ShutdownDone)
-        /\ WF_vars(OperatorLine) /\ WF_vars(\E h \in {"in-closes", "out-closes"} : EndShell(h))
+        /\ WF_vars(OperatorLine) /\ WF_vars(HeldCloses) /\ WF_vars(\E h \in {"in-closes", "out-closes"} : EndShell(h))
 FairSpec == Spec /\ Fair
 
 (* C12 *)
@@ -141,7 +173,10 @@ ExitsAtNextLine == OneShellFlag => (gone ~> proc = "exited")
 ExitsWithSuccess == proc = "exited" => status = 0
 StaysWhileShellAttached == (inAtt \/ outAtt) => proc # "exited"
 
-View == <<listener, inAtt, outAtt, viaIO, everFull, evq, gone, reprints, proc, status, npre, ntraffic>>
+(* a shell formed late by a connection in flight is served to its end as well *)
+LateShellServed == [][(act'.n = "LateIO") => (inAtt' /\ outAtt' /\ proc' = proc /\ status' = status)]_vars
+
+View == <<listener, inAtt, outAtt, viaIO, everFull, evq, gone, reprints, proc, status, npre, ntraffic, held, nheld>>
 EmitEdge == \/ ~Emit
             \/ PrintT(<<"EDGE", ToJson([from |-> View, act |-> act', to |-> View'])>>)
 =============================================================================
